@@ -412,7 +412,23 @@ fn fixpoint_of(case: &str, c3: &Cfg3, bytes: &[u8], what: &str, wasm_hex_only: &
                     let s3 = all_sections(&b3);
                     let orphan = s1.iter().all(|x| x.0 != "custom:.debug_line")
                         && s1.iter().filter(|x| x.0 != "custom:.debug_line_str").cloned().collect::<Vec<_>>() == s3;
-                    let key = if orphan { "C08:not-a-fixpoint-orphan-debug-line-str-dropped-by-second-round-trip" } else { "C08:not-a-fixpoint" };
+                    // another: only the DWARF string table and the references into it differ, section
+                    // sizes are the same, and the *second* output is a fixpoint (the order in which the
+                    // strings are interned follows the order of the DIEs that is read, which gimli's
+                    // writer changes once by moving base types to the front)
+                    let dwarf_only = s1.len() == s3.len()
+                        && s1.iter().zip(s3.iter()).all(|(x, y)| x == y || (x.0 == y.0 && x.1.len() == y.1.len() && ["custom:.debug_str", "custom:.debug_info", "custom:.debug_line_str", "custom:.debug_abbrev"].contains(&x.0.as_str())));
+                    let settles = dwarf_only && {
+                        let c4 = mk_config(c3, None);
+                        matches!(out::catch(|| c4.parse(&b3).map(|mut m| m.emit_wasm())), Ok(Ok(b4)) if b4 == b3)
+                    };
+                    let key = if orphan {
+                        "C08:not-a-fixpoint-orphan-debug-line-str-dropped-by-second-round-trip"
+                    } else if settles {
+                        "C08:not-a-fixpoint-dwarf-string-order-settles-one-trip-later"
+                    } else {
+                        "C08:not-a-fixpoint"
+                    };
                     out::oracle(case, false, key, &format!("re-parsing walrus's output{} and emitting again changes it ({}) | only: {}", what, first_section_diff(bytes, &b3), wasm_hex_only));
                     return false;
                 }
@@ -673,6 +689,15 @@ pub fn main(seed: u64, tier: &str, only: Option<&str>) {
             let script = *rng.pick(&["e", "ee", "ege"]);
             run_case(&format!("x{}", case), &wasm, &c3, script, &ver, false, &mut stats);
             stats.full_names += 1;
+        }
+    }
+    // DWARF as a compiler writes it (clang 14 -O0 -g of data/clang_O0_dwarf.c): base types in the
+    // middle of the unit, location lists, ranges - shapes the synthesised DWARF does not have
+    if prop == "C08" || prop == "C14" {
+        let wasm: &[u8] = include_bytes!("../data/clang_O0_dwarf.wasm");
+        for (k, dwarf) in [true, false].into_iter().enumerate() {
+            let c3 = Cfg3 { skip_name: false, skip_producers: false, dwarf, preserve: false, synthetic: false };
+            run_case(&format!("clang{}", k), wasm, &c3, "e", &ver, false, &mut stats);
         }
     }
     out::stat("sections.real_dwarf_inputs", stats.real_dwarf);
